@@ -57,6 +57,11 @@ Theorem C03_singles_immediate : forall buf w a, is_single a = true ->
 Proof. exact singles_immediate. Qed.
 Print Assumptions C03_singles_immediate.
 
+(* the boolean check the harness applies to every sequence it hands to the oracles implies well-formedness *)
+Theorem C03_wf_check_sound : forall s, asm_wf_check s = true -> WF s.
+Proof. exact wf_check_sound. Qed.
+Print Assumptions C03_wf_check_sound.
+
 (* ---------------------------------------------------------------- non-vacuity *)
 
 Definition ex_common (raw : Z) (valid : bool) : nmea_common := mkCommon [raw] [33] [65; 73] [86; 68; 77] 0 0 valid [] None.
@@ -66,13 +71,13 @@ Definition ex_gatehouse : gatehouse := mkGh (ex_common 36 true) (mkTs 2024 2 29 
 
 (* message 0 = (seq 1, channel A) 2 fragments arriving 2,1; message 1 = (seq 1, channel B) 2 fragments interleaved with
    it; message 2 a single; message 3 reuses slot (1, A) after message 0 completed and stays incomplete *)
-Definition ex_schedule : schedule :=
+Definition ex_schedule : asm_schedule :=
   [ IFrag (ex_frag 0 2 2 (Some 1) 65 102 true); IFrag (ex_frag 1 2 1 (Some 1) 66 111 true); IWrapper ex_gatehouse;
     IFrag (ex_frag 0 2 1 (Some 1) 65 101 false); ISkipped UnknownMessageException; IFrag (ex_frag 2 1 1 None 65 120 true);
     IFrag (ex_frag 3 2 1 (Some 1) 65 121 true); IFrag (ex_frag 1 2 2 (Some 1) 66 112 true) ].
 
 Example C03_nonvacuous :
-  WF ex_schedule /\
+  WF ex_schedule /\ asm_wf_check ex_schedule = true /\
   spec_deliveries ex_schedule =
     [ []; []; [];
       [mkDelivery [101; 10; 102] [101; 101; 102; 102] [true; false; true; false] false (Some 1) [65]];
@@ -80,7 +85,7 @@ Example C03_nonvacuous :
       [mkDelivery [111; 10; 112] [111; 111; 112; 112] [true; false; true; false] true (Some 1) [66]] ] /\
   map (map delivery_of) (fst (asm_run stream_step asm_init (schedule_lines ex_schedule))) = spec_deliveries ex_schedule.
 Proof.
-  split; [|split; vm_compute; reflexivity].
+  split; [|split; [|split]; vm_compute; reflexivity].
   split.
   - constructor.
     + intros f H. simpl in H. repeat (destruct H as [H|H]; [subst f; vm_compute; split; discriminate|]). destruct H.
